@@ -87,6 +87,10 @@ func Gen(t *rapid.T, o GenOpts) Prog {
 		startMask = mask(t, n, "startmask")
 	}
 	p.Ops = append(p.Ops, Op{K: "startall", To: startMask})
+	tkinds := []string{"", "", "", "", "", "stale-round", "other-height", "lower-height"}
+	if o.MultiHeight {
+		tkinds = append(tkinds, "prev-height", "prev-height-next")
+	}
 	genOp := func(t *rapid.T) Op {
 		switch rapid.SampledFrom(kinds).Draw(t, "k") {
 		case "flush":
@@ -95,7 +99,7 @@ func Gen(t *rapid.T, o GenOpts) Prog {
 		case "deliver":
 			return Op{K: "deliver", I: rapid.IntRange(1, n).Draw(t, "i"), M: rapid.IntRange(0, 400).Draw(t, "m")}
 		case "timeout":
-			return Op{K: "timeout", To: mask(t, n, "tmask"), TKind: rapid.SampledFrom([]string{"", "", "", "", "", "stale-round", "other-height", "lower-height"}).Draw(t, "tkind")}
+			return Op{K: "timeout", To: mask(t, n, "tmask"), TKind: rapid.SampledFrom(tkinds).Draw(t, "tkind")}
 		case "forge":
 			fg := &Forge{By: rapid.IntRange(0, 3).Draw(t, "by"),
 				T:        rapid.SampledFrom([]string{"proposal", "proposal", "prepare", "commit", "rc", "rc"}).Draw(t, "ft"),
